@@ -29,6 +29,18 @@ type LoopSpec struct {
 	HasModifies bool
 }
 
+func (fs *FuncSpec) hasLabel(name string) bool {
+	if fs == nil {
+		return false
+	}
+	for _, a := range fs.Asserts {
+		if a.Label == name {
+			return true
+		}
+	}
+	return false
+}
+
 type AssertSpec struct {
 	Callee  string // at call <callee>#<k>
 	Ordinal int
